@@ -7,6 +7,8 @@
 //---------------------------------------------------------------------------//
 #include "StatusChecker.hh"
 
+#include <mutex>
+
 #include "corecel/data/AuxStateVec.hh"
 #include "corecel/data/Copier.hh"
 #include "corecel/sys/ActionRegistry.hh"
@@ -127,6 +129,16 @@ void StatusChecker::step(ActionId prev_action,
  */
 void StatusChecker::begin_run_impl(CoreParams const& params)
 {
+    // The data is shared by all streams: build it once, and always take the
+    // lock so that streams beginning their run concurrently neither build it
+    // twice nor replace it while another stream is already stepping
+    static std::mutex initialize_mutex;
+    std::lock_guard<std::mutex> scoped_lock{initialize_mutex};
+    if (data_)
+    {
+        return;
+    }
+
     auto const& reg = *params.action_reg();
 
     HostVal<StatusCheckParamsData> host_val;
